@@ -47,6 +47,8 @@ type Conn struct {
 	Canary    int             // plain variable touched by every Write/Read (race detector judges happens-before)
 	FragMax   int             // >0: deliver at most FragMax bytes per Read call
 	Log       func(ev string) // ordered log of environment calls (w:<id>:<offered hex>:<accepted>, c:<id>, d:<id>)
+	// DeadlineErr: what SetReadDeadline returns (a connection that cannot arm a deadline: nothing bounds a read on it)
+	DeadlineErr error
 }
 
 func NewConn(id int) *Conn { return &Conn{ID: id, closedCh: make(chan struct{})} }
@@ -220,16 +222,25 @@ func (c *Conn) SetDeadline(t time.Time) error {
 func (c *Conn) SetReadDeadline(t time.Time) error {
 	c.hook("setreaddeadline")
 	c.mu.Lock()
-	c.deadline = t
+	derr := c.DeadlineErr
+	if derr == nil {
+		c.deadline = t
+	}
 	c.Deadlines = append(c.Deadlines, t)
 	lg := c.Log
 	c.mu.Unlock()
 	if lg != nil {
 		lg(fmt.Sprintf("d:%d", c.ID))
 	}
-	return nil
+	return derr
 }
 func (c *Conn) SetWriteDeadline(t time.Time) error { return nil }
+
+func (c *Conn) SetDeadlineErr(err error) {
+	c.mu.Lock()
+	c.DeadlineErr = err
+	c.mu.Unlock()
+}
 
 // Factory hands out scripted connections; FailOn lists the (0-based) calls that fail.
 type Factory struct {
